@@ -543,6 +543,13 @@ class ClockScheduler():
         self._pending[key] = clock_task
         self.queue.add(time, clock_task)
 
+    def retime(self, clock):
+        # The tempo map of clock changed, pending tasks keep their beats.
+        for _, clock_task in list(self.queue):
+            if clock_task.clock is clock:
+                self.queue.add(
+                    clock.beats2secs(clock_task.beats), clock_task)
+
     def reset(self):
         self.queue.clear()
         self._pending.clear()
@@ -553,6 +560,7 @@ class ClockTask():
         self.clock = clock
         self.task = task
         self.scheduler = scheduler
+        self.beats = beats
         scheduler.add(clock.beats2secs(beats), self)
 
     def _wakeup(self, time):
@@ -561,7 +569,8 @@ class ClockTask():
             beats = self.clock.secs2beats(time)
             delta = self.task.__awake__(self.clock)
             if isinstance(delta, (int, float)) and not isinstance(delta, bool):
-                self.scheduler.add(self.clock.beats2secs(beats + delta), self)
+                self.beats = beats + delta
+                self.scheduler.add(self.clock.beats2secs(self.beats), self)
         except stm.StopStream:
             pass
         except Exception:
@@ -968,6 +977,7 @@ class TempoClock(Clock, metaclass=MetaTempoClock):
         # en tempo_
         mdl.NotificationCenter.notify(self, 'tempo')
         if self.mode == _libsc3.main.NRT_MODE:
+            _libsc3.main._clock_scheduler.retime(self)
             return
         else:
             with self._sched_cond:
@@ -997,6 +1007,7 @@ class TempoClock(Clock, metaclass=MetaTempoClock):
         # etempo_
         mdl.NotificationCenter.notify(self, 'tempo')
         if self.mode == _libsc3.main.NRT_MODE:
+            _libsc3.main._clock_scheduler.retime(self)
             return
         else:
             with self._sched_cond:
@@ -1055,6 +1066,7 @@ class TempoClock(Clock, metaclass=MetaTempoClock):
         self._base_beats = value
         self._beat_dur = 1.0 / self._tempo
         if self.mode == _libsc3.main.NRT_MODE:
+            _libsc3.main._clock_scheduler.retime(self)
             return
         else:
             with self._sched_cond:
